@@ -77,7 +77,11 @@ META = {
         "errors really differ: open known finding D43, reported as KNOWN-FINDING by the traj stream (matcher d43_matcher: exact "
         "collinearity of the case's positions + align/scale + rotation-bearing etype); translation errors on collinear data and every "
         "non-collinear case remain hard failures. rpe is not affected (rpeCore_unit_scale_alignment)",
-        "statistics: STD is claimed only for >= 2 errors (torch.std of one value is NaN); the other six statistics for >= 1",
+        "statistics: STD is claimed only for >= 2 errors (torch.std of one value is NaN — the only non-finite value accepted from the "
+        "implementation; every other non-finite result for finite valid input is a `non-finite result` failure before any comparison); "
+        "the other six statistics for >= 1",
+        "rpe svd-mode invariance with scale (rpeCore_align_invariant_partial) takes the svdstf contract as hypothesis like the ape version; "
+        "alignOK_transport shows the contract at the transformed point set follows from the contract at the original one",
         "closed-form spline theorems: Exp(Log D) ~ D is proved in the generic regime and for exactly equal orientations; relative "
         "angles in (0, ~2 eps] or within 2 eps of pi, and constant twists with 0 < |phi| <= eps, are stated (bspline_continuous, "
         "bsplineAt_const_twist) but not closed",
@@ -127,6 +131,45 @@ def pub(case):
 
 def excs(e):
     return f"{type(e).__name__}: {str(e)[:120]}"
+
+
+def nmax(xs):
+    """NaN-safe maximum of python floats (lesson 38: `max()` silently drops or keeps a NaN depending on its position):
+    any NaN makes the result +inf, so `if not nmax(...) <= tol` fails"""
+    m = 0.0
+    for x in xs:
+        x = float(x)
+        if x != x:
+            return math.inf
+        if x > m:
+            m = x
+    return m
+
+
+def all_finite(x) -> bool:
+    """tensor / LieTensor / dict of tensors / list of floats: every value finite"""
+    if isinstance(x, dict):
+        return all(all_finite(v) for v in x.values())
+    if hasattr(x, "ltype"):
+        x = x.tensor()
+    if isinstance(x, torch.Tensor):
+        return bool(torch.isfinite(x.detach()).all()) if (x.is_floating_point() or x.is_complex()) else True
+    if isinstance(x, (list, tuple)):
+        return all(all_finite(v) for v in x)
+    if isinstance(x, np.ndarray):
+        return bool(np.isfinite(x).all())
+    return math.isfinite(float(x))
+
+
+def stats_finite(ctx: Ctx, case, what: str, vals, n: int, known_matcher=None) -> bool:
+    """lesson 38(a): the seven statistics of a finite valid input are finite — tested BEFORE the model / any tolerance sees them.
+    The only specified non-finite value: STD of a single error (torch.std of one value is NaN by torch's definition; the property's
+    STD clause is for n >= 2 — theorems stats_zero / stats_sse carry that guard)."""
+    bad = [k_ for k_, v in zip(STAT_KEYS, vals) if not math.isfinite(v) and not (k_ == "STD" and n == 1 and math.isnan(v))]
+    if bad:
+        ctx.fail(case, f"non-finite result: {what} returns {dict((k_, vals[STAT_KEYS.index(k_)]) for k_ in bad)} for finite valid poses ({n} pairs)", known_matcher=known_matcher)
+        return False
+    return True
 
 
 # ============================================================================= chspline
@@ -310,9 +353,9 @@ def _check_chs(ctx: Ctx, case, mb: MB) -> None:
             if want is None or len(want) != len(got):
                 ctx.disagree("chs", pub(case), f"fibre ({b},{d}): model reply {rep[:60]} vs {len(got)} samples")
                 return
-            e = max(abs(a - c) for a, c in zip(got, want))
+            e = nmax(abs(a - c) for a, c in zip(got, want))
             if not e <= tol_f:
-                j = max(range(len(got)), key=lambda n: abs(got[n] - want[n]))
+                j = max(range(len(got)), key=lambda n: (math.inf if got[n] != got[n] else abs(got[n] - want[n])))
                 ctx.disagree("chs", pub(case), f"fibre ({b},{d}) sample {j} (segment {j // k}, u-index {j % k}): implementation {got[j]!r} model {want[j]!r}, err {e:.3e} > {tol_f:.3e}")
                 ctx.fail(pub(case), f"chs-value: chspline sample {j} of fibre ({b},{d}) is {got[j]!r}, the Hermite spline through the points gives {want[j]!r} (N={N}, interval={iv!r})")
         mb.add(f"c19.chsa {N} {F.numerator} {F.denominator} {to_wire(iv)} " + wire_list(col), cb)      # grid size decided by the model (floatLen)
@@ -716,10 +759,13 @@ def sweep_bs_cases(ctx: Ctx):
         for ex in (True, False):
             if not ex and N < 4:
                 continue
+            sd_ = rng.randrange(1 << 30)
+            if ctx.quick and N > 12 and N % 4 and N != 59:        # quick tier: every count up to 12, then every fourth (all of them in thorough)
+                continue
             out.append({"kind": "bs", "dtype": "float64" if (N + ex) % 4 else "float32", "N": N, "batch": [] if N % 6 else [2],
                         "interval": 0.5 if N % 2 else 0.4, "extrapolate": ex, "gen": "twist" if N % 2 else "walk",
                         "rot": [0.3, 1.0, 2.0][N % 3], "tscale": 1.0, "flip": False, "continuity": 1 if N % 10 == 0 else 0,
-                        "model_cap": 24, "seed": rng.randrange(1 << 30)})
+                        "model_cap": 24, "seed": sd_})
     return out
 
 
@@ -860,6 +906,10 @@ def _check_geo(ctx: Ctx, case, mb: MB) -> None:
     n64 = none.double().reshape(-1)
     if n64.numel() == 0:
         return
+    if not (all_finite(n64) and all_finite(swapped) and all_finite(red)):       # lesson 38(a): before any tolerance comparison
+        j = int((~torch.isfinite(n64)).nonzero()[0]) if not all_finite(n64) else -1
+        ctx.fail(pub(case) | {"item": j}, f"non-finite result: geodesic_loss returns a non-finite value (item {j}) for valid rotations (types {case['type_x']}/{case['type_y']}, {dtype})")
+        return
     # range
     if not (bool((n64 >= 0).all()) and bool((n64 <= math.pi + tol).all())):
         ctx.fail(pub(case), f"geo-range: geodesic_loss outside [0, pi]: min {float(n64.min())!r} max {float(n64.max())!r}")
@@ -893,7 +943,7 @@ def _check_geo(ctx: Ctx, case, mb: MB) -> None:
     try:
         a1 = P.geodesic_loss(xr @ g, yr @ g, reduction="none").double().reshape(-1)
         a2 = P.geodesic_loss(g @ xr, g @ yr, reduction="none").double().reshape(-1)
-        e = max(float((a1 - n64).abs().max()), float((a2 - n64).abs().max()))
+        e = nmax([float((a1 - n64).abs().max()), float((a2 - n64).abs().max())])
         if not e <= 4 * tol:
             ctx.fail(pub(case), f"geo-inv: angle changes by {e:.3e} when both rotations are multiplied by the same rotation")
     except Exception as e:
@@ -1188,6 +1238,9 @@ def svd_T(ctx, case, B, ir, ie, with_scale):
     est = B["ep"][ie][:, :3]
     ref = B["rp"][ir][:, :3]
     T = P.svdstf(torch.tensor(est), torch.tensor(ref), with_scale).tensor().double().numpy().reshape(-1)
+    if not np.isfinite(T).all():          # lesson 38(a): never onto the wire; a NaN transform is a failure with the positions as replay
+        ctx.fail(pub(case), f"non-finite result: svdstf returns {T.tolist()} for {len(est)} finite positions (with_scale={with_scale})")
+        raise ValueError("svdstf returned a non-finite transform")
     s, Rm, t, D = R.umeyama(est, ref, with_scale)
     c_np = R.align_cost(s, Rm, t, est, ref)
     c_im = R.align_cost(T[7], R.rot_from_quat(T[3:7]), T[:3], est, ref)
@@ -1314,6 +1367,8 @@ def _check_traj(ctx: Ctx, case, mb: MB) -> None:
         ctx.fail(pub(case), f"ape-type: ape returned {type(res).__name__} with keys {sorted(res) if isinstance(res, dict) else None}")
         return
     vals = stat_vals(res)
+    if not stats_finite(ctx, pub(case), f"ape(etype={case['etype']}, mode={mode})", vals, n):      # lesson 38(a): before the model and every tolerance
+        return
     case["_vals"] = vals
     check_order(ctx, case, f"ape etype={case['etype']} mode={mode}", vals)
     # discrete: association against the model and the oracle
@@ -1410,12 +1465,14 @@ def _check_traj(ctx: Ctx, case, mb: MB) -> None:
     try:
         idres = run_metric(A.ape, B["rs"], B["rp"], B["rs"], B["rp"], dtype, **{**kw, "offset": 0.0})
         zv = stat_vals(idres)
+        if not stats_finite(ctx, pub(case) | {"clause": "identical"}, f"ape(etype={case['etype']}, mode={mode}) of a trajectory with itself", zv, len(B["rp"]), known_matcher=d43_matcher):
+            zv = None
         ztol = 4 * err_tol(case["etype"], 3 * float(np.abs(B["rp"][:, :3]).max()) + 1e-300) * (1e3 if svd_mode else 1) + unit_slack * (180 / math.pi if case["etype"] == "degree" else 1)
         if svd_mode and case.get("geom") == "near-line":       # ill-conditioned, NOT degenerate: rounding is amplified by 1/cond, nothing else is allowed
             Did = R.umeyama(B["rp"][:, :3], B["rp"][:, :3], False)[3]
             ztol = ztol * max(1.0, 1e-2 * float(Did[0]) / max(float(Did[1]), 1e-300))
             ctx.count("traj.near-line.identical")
-        worst = max(abs(v) for kx, v in zip(STAT_KEYS, zv) if kx != "SSE" and not math.isnan(v))
+        worst = nmax(abs(v) for kx, v in zip(STAT_KEYS, zv) if kx != "SSE" and not (kx == "STD" and math.isnan(v))) if zv is not None else 0.0
         if not worst <= ztol:
             ctx.fail(pub(case) | {"clause": "identical"}, f"ape-identical: identical trajectories give non-zero statistics (max |stat| {worst:.3e} > {ztol:.3e}) for etype={case['etype']} mode={mode}",
                      known_matcher=d43_matcher)
@@ -1438,6 +1495,8 @@ def _check_traj(ctx: Ctx, case, mb: MB) -> None:
             r2 = run_metric(A.ape, B["rs"], B["rp"], B["es"], ep2, "float64", **kw)
             ts2 = ts + s * float(np.abs(B["ep"][:, :3]).max()) + float(np.abs(G[0]).max())
             tau2 = err_tol(case["etype"], ts2) * (1e3 / max(cond, 1e-11 if near else 1e-2) if svd_mode else 16) + unit_slack * (180 / math.pi if case["etype"] == "degree" else 1)
+            if not stats_finite(ctx, pub(case) | {"clause": "invariance"}, f"ape(etype={case['etype']}, mode={mode}) on a transformed estimate", stat_vals(r2), n, known_matcher=d43_matcher):
+                return
             bad = stats_close(stat_vals(r2), vals, tau2, n)
             if bad:
                 i = STAT_KEYS.index(bad)
@@ -1524,8 +1583,10 @@ def check_rpe(ctx: Ctx, case, mb: MB, B, Tsvd, cond, ts, rnd) -> None:
         ctx.fail(pub(case), f"rpe-type: rpe returned {type(res).__name__}")
         return
     vals = stat_vals(res)
-    case["_rvals"] = vals
     m = len(pairs)
+    if not stats_finite(ctx, pub(case), f"rpe(etype={rk['etype']}, mode={mode}, {rk['associate']}, delta={rk['delta']}, all={rk['all']})", vals, m):
+        return
+    case["_rvals"] = vals
     check_order(ctx, case, f"rpe etype={rk['etype']}", vals)
     ot = case["otype"]
     try:
@@ -1607,13 +1668,40 @@ def check_rpe(ctx: Ctx, case, mb: MB, B, Tsvd, cond, ts, rnd) -> None:
             Did = R.umeyama(B["rp"][:, :3], B["rp"][:, :3], False)[3]
             ztol = ztol * max(1.0, 1e-2 * float(Did[0]) / max(float(Did[1]), 1e-300))
             ctx.count("traj.near-line.identical")
-        worst = max(abs(v) for kx, v in zip(STAT_KEYS, zv) if kx != "SSE" and not math.isnan(v))
+        m_id = len(R.pairs_frames_oracle(len(B["rp"]), int(rk["delta"]), rk["all"]) if rk["associate"] == "frame" else
+                   R.pairs_dist_oracle(B["rp"][:, :3], rk["delta"], rk["delta"] * rk["rtol"], rk["all"])[0])
+        if not stats_finite(ctx, pub(case), f"rpe(etype={rk['etype']}, mode={mode}) of a trajectory with itself", zv, m_id):
+            return
+        worst = nmax(abs(v) for kx, v in zip(STAT_KEYS, zv) if kx != "SSE" and not (kx == "STD" and math.isnan(v)))
         if not worst <= ztol:
             ctx.fail(pub(case), f"rpe-identical: identical trajectories give non-zero statistics (max |stat| {worst:.3e} > {ztol:.3e}), etype={rk['etype']} mode={mode}")
     except (AssertionError, IndexError):
         pass
     except Exception as e:
         ctx.fail(pub(case), f"rpe-raises: rpe raised on identical trajectories: {excs(e)}")
+    # oracle (pass 7, theorems rpeCore_align_invariant_partial / rpeCore_left_invariant_svd): with svd alignment rpe does not change under a
+    # rigid (scale: similarity) transform of the estimate. Collinear positions included: the free rotation about the line cancels in
+    # every relative pose (rpe is not affected by D43); only ill-conditioned NON-collinear sets (other than near-line) are skipped.
+    col_r = svd_mode and (collinear_exact(B["ep"][ie][:, :3], EPS[dtype]) or collinear_exact(B["rp"][ir][:, :3], EPS[dtype]))
+    near_r = svd_mode and case.get("geom") == "near-line" and cond > 1e-11
+    if svd_mode and (cond > 1e-2 or col_r or near_r) and not scale_undefined(case, B, mode):
+        s_ = math.exp(rnd.uniform(-1.2, 1.2)) if with_scale_m else 1.0
+        G = (R.rand_unit(rnd) * (ts + 1) * rnd.choice([0.1, 1.0, 10.0]), R.rand_quat(rnd))
+        ep2 = R.apply_sim(s_, G[1], G[0], B["ep"])
+        try:
+            r2 = run_metric(A.rpe, B["rs"], B["rp"], B["es"], ep2, "float64", **kw)
+            v2 = stat_vals(r2)
+            if stats_finite(ctx, pub(case), f"rpe(etype={rk['etype']}, mode={mode}) on a transformed estimate", v2, m):
+                tsr2 = tsr + s_ * float(np.abs(B["ep"][:, :3]).max()) + float(np.abs(G[0]).max())
+                tau2 = err_tol(rk["etype"], tsr2) * 1e3 / (1.0 if col_r else max(cond, 1e-11 if near_r else 1e-2)) + unit_slack
+                bad = stats_close(v2, vals, tau2, m)
+                ctx.count("rpe.svd-invariance")
+                if bad:
+                    i = STAT_KEYS.index(bad)
+                    ctx.fail(pub(case), f"rpe-invariance: rpe(etype={rk['etype']}, mode={mode}, {rk['associate']}, all={rk['all']}, rpair={rk['rpair']}) changes under a "
+                                        f"{'similarity' if with_scale_m else 'rigid'} transform of the estimate: {bad} {vals[i]!r} -> {v2[i]!r} (tol {tau2:.3e}, {m} pairs)")
+        except Exception as e:
+            ctx.fail(pub(case), f"rpe-raises: rpe raised on the transformed estimate: {excs(e)}")
     # oracle: invariance under left multiplication of either trajectory by a fixed pose (no svd alignment)
     if not svd_mode:
         G = (R.rand_unit(rnd) * (ts + 1) * rnd.choice([0.1, 1.0, 10.0]), R.rand_quat(rnd))
@@ -1772,7 +1860,7 @@ def traj_case(i, **kw):
     return base
 
 
-def corpus_traj():
+def corpus_traj(quick=False):
     c = []
     i = 0
     for et in ETYPES:                       # every error type x every alignment mode
@@ -1797,7 +1885,8 @@ def corpus_traj():
     for geom in ("line", "line-rounded", "two", "one"):     # pass 5: degenerate position geometry x svd modes x every error type
         for mode in ("align", "align+scale", "scale", "align+origin", "none", "origin"):
             for est in ("identical", "noisy", "transformed"):
-                if (gi % 3) and mode in ("none", "origin"):
+                if ((gi % 3) and mode in ("none", "origin")) or (quick and geom != "line" and mode in ("scale", "align+origin") and est != "transformed") \
+                        or (quick and est == "noisy" and mode not in ("align", "align+scale")):
                     gi += 1
                     continue
                 c.append(traj_case(i, M=4 + (gi * 5) % 9, geom=geom, mode=mode, est=est, etype=ETYPES[gi % 5], noise=[1e-2, 0.3][gi % 2],
@@ -1807,15 +1896,17 @@ def corpus_traj():
                                         "associate": ["frame", "distance"][(gi // 2) % 2], "delta": [1.0, 2.0, 1.7][gi % 3]}))
                 i += 1
                 gi += 1
-    for dv_i, dev in enumerate((1e-3, 1e-4, 1e-5, 1e-6)):    # round 5 (class 36): nearly collinear positions — NOT D43: every error type must hold
+    for dv_i, dev in enumerate((1e-3, 1e-5) if quick else (1e-3, 1e-4, 1e-5, 1e-6)):    # round 5 (class 36): nearly collinear positions — NOT D43: every error type must hold
         for m_i, mode in enumerate(("align", "align+scale")):
             for e_i, est in enumerate(("identical", "transformed", "noisy")):
                 gi = dv_i * 6 + m_i * 3 + e_i
+                if quick and (dv_i + m_i + e_i) % 2:
+                    continue
                 c.append(traj_case(i, M=5 + gi % 6, geom="near-line", dev=dev, mode=mode, est=est, etype=ETYPES[gi % 5], noise=1e-2,
                                    stamps=["jitter", "same", "none"][gi % 3], tscale=[1.0, 20.0][gi % 2],
                                    rpe={"mode": ["align", "align+scale"][gi % 2], "etype": ETYPES[(gi + 3) % 5], "all": True}))
                 i += 1
-    for nz_i, nz in enumerate((1e-12, 1e-10, 1e-9, 1e-8, 1e-7, 1e-6, 1e-5)):     # class 36: nearly identical trajectories, every error type
+    for nz_i, nz in enumerate((1e-11, 1e-7) if quick else (1e-12, 1e-10, 1e-9, 1e-8, 1e-7, 1e-6, 1e-5)):     # class 36: nearly identical trajectories, every error type
         for et in ETYPES:
             c.append(traj_case(i, M=6 + nz_i, est="noisy", noise=nz, etype=et, mode=["none", "origin", "align", "align+scale"][(nz_i + ETYPES.index(et)) % 4],
                                stamps=["jitter", "same"][nz_i % 2], rpe={"etype": et, "all": True, "mode": ["none", "align"][nz_i % 2]}))
@@ -1841,7 +1932,7 @@ def corpus_traj():
 def run_corpus(ctx: Ctx, mb: MB):
     """class 2: deterministic corner corpus + exhaustive length sweeps, identical for every seed, run FIRST"""
     for fn, cases, tag in ((check_chs, corpus_chs() + sweep_chs_cases(ctx), "chs"), (check_bs, corpus_bs() + sweep_bs_cases(ctx), "bs"),
-                           (check_geo, corpus_geo(), "geo"), (check_traj, corpus_traj(), "traj")):
+                           (check_geo, corpus_geo(), "geo"), (check_traj, corpus_traj(ctx.quick), "traj")):
         for case in cases:
             fn(ctx, case, mb)
             ctx.note_case(("corpus", tag, json_sig(case)), True)
@@ -2141,7 +2232,7 @@ def run_views(ctx: Ctx):
                 z1 = A.ape(st, Pz, st, Pz, **kw)
                 z2 = A.rpe(st, Pz, st, Pz, **kw)
             for z, fn_ in ((z1, "ape"), (z2, "rpe")):
-                wv = max(abs(float(z[k_])) for k_ in STAT_KEYS if k_ != "SSE" and not math.isnan(float(z[k_])))
+                wv = nmax(abs(float(z[k_])) for k_ in STAT_KEYS if k_ != "SSE")
                 if not wv <= 1e5 * EPS64:
                     ctx.fail(case | {"kwargs": {k_: str(v_) for k_, v_ in kw.items()}}, f"alias: {fn_}(s, P, s, P, {kw}) with the very same objects gives non-zero statistics (max {wv:.3e})")
         if not torch.equal(Pz.tensor(), ref_p):
@@ -2172,6 +2263,8 @@ def expect_same(ctx, case, label, ref, fn):
     except Exception as e:
         ctx.fail(case | {"variant": label}, f"{case['kind']}-raises: {case.get('fn')} raised for the variant '{label}': {excs(e)}")
         return None
+    if not (all_finite(got) and all_finite(ref)):       # bits_eq treats NaN == NaN: a NaN in both calls must not pass (lesson 38)
+        ctx.fail(case | {"variant": label}, f"non-finite result: {case.get('fn')} returns non-finite values for finite valid input (variant '{label}' / reference call)")
     if not bits_eq(got, ref):
         ctx.fail(case | {"variant": label}, f"{case['kind']}: {case.get('fn')} called as '{label}' returns other values than the reference call")
     return got
@@ -2449,16 +2542,21 @@ def run_pass4(ctx: Ctx, mb: MB):
     quick = ctx.quick
     lt = lambda t: P.LieTensor(t, ltype=P.SE3_type)
     # ------------------------------------------------------------ class 19: sizes 2^k, 2^k +- 1, one > 2^14, one > 2^16
-    sizes = [256, 257, 1025, 4097, 16385, 65537] + ([] if quick else [255, 1023, 4095, 4096, 16383, 16384, 32769, 65535, 65536])
+    sizes = [257, 4097, 16385, 65537] + ([] if quick else [255, 256, 1023, 1025, 4095, 4096, 16383, 16384, 32769, 65535, 65536])
     for n in sizes:
-        for dtype in (("float64",) if (quick and n not in (257, 16385)) else ("float64", "float32")):
+        for dtype in (("float64",) if (quick and n != 257) else ("float64", "float32")):
             D_ = DT[dtype]
             eps = EPS[dtype]
             cuts = [1, n // 2, n - 1, (n // 256) * 256 if n > 256 else 3] if n <= 1025 else ([n - 1, (n // 256) * 256] if n <= 4097 else [n - 1])
-            # chspline over a batch of n sequences
+            if quick and n == 65537:
+                cuts = []           # quick tier: the full call and the first / last item alone only (cut consistency at this size: thorough tier)
+            # chspline over a batch of n sequences (quick tier: 65537 is left to the 2^18+37 probes of round 5)
             pts = torch.randn(n, 4, 2, generator=g, dtype=torch.float64).to(D_)
             c = {"kind": "large", "fn": "chspline", "batch": n, "dtype": dtype}
+            skip_pw = quick and n == 65537
             try:
+                if skip_pw:
+                    raise StopIteration
                 out = split_consistent(ctx, c, "chspline(batch)", lambda x: P.chspline(x, 0.4), pts, 0, cuts)
                 if not bool(((out[:, ::3, :].double() - pts.double()).abs() <= 16 * eps * (1 + pts.double().abs())).all()):
                     ctx.fail(c, f"large: chspline on a batch of {n} does not interpolate every item")
@@ -2467,10 +2565,12 @@ def run_pass4(ctx: Ctx, mb: MB):
 
                 def cb(rep, got=got, c=c, tol=64 * eps * 12):
                     w = nums(rep)
-                    if len(w) != len(got) or not max(abs(a - b) for a, b in zip(got, w)) <= tol:
+                    if len(w) != len(got) or not nmax(abs(a - b) for a, b in zip(got, w)) <= tol:
                         ctx.disagree("chs", c, f"last item of a batch of {c['batch']}: implementation {got[:4]}… model {w[:4]}…")
                         ctx.fail(c, f"large: the LAST item of a chspline batch of {c['batch']} differs from the Hermite spline of its points")
                 mb.add(f"c19.chs 4 3 {to_wire(0.4)} " + wire_list(col), cb)
+            except StopIteration:
+                pass
             except Exception as e:
                 ctx.fail(c, f"large-raises: chspline raised on a batch of {n}: {excs(e)}")
             # bspline over a batch of n pose sequences
@@ -2499,6 +2599,8 @@ def run_pass4(ctx: Ctx, mb: MB):
             qa, qb = rand_unit_quats(g, n).to(D_), rand_unit_quats(g, n).to(D_)
             c = {"kind": "large", "fn": "geodesic_loss", "batch": n, "dtype": dtype}
             try:
+                if skip_pw:
+                    raise StopIteration
                 both = torch.cat([qa, qb], -1)
                 out = split_consistent(ctx, c, "geodesic_loss(batch)",
                                        lambda x: P.geodesic_loss(P.SO3(x[..., :4]), P.SO3(x[..., 4:]), reduction="none"), both, 0, cuts)
@@ -2510,6 +2612,8 @@ def run_pass4(ctx: Ctx, mb: MB):
                     r_ = P.geodesic_loss(P.SO3(qa), P.SO3(qb), reduction=rd)
                     if not abs(float(r_) - float(ref)) <= 64 * eps * abs(float(ref)) * (1 + math.log2(n)):
                         ctx.fail(c | {"reduction": rd}, f"large: reduction={rd!r} over {n} items gives {float(r_)!r}, the items give {float(ref)!r}")
+            except StopIteration:
+                pass
             except Exception as e:
                 ctx.fail(c, f"large-raises: geodesic_loss raised on {n} items: {excs(e)}")
         # long sequences: chspline / bspline with n points / poses — every segment = the call on its own window
@@ -2690,7 +2794,7 @@ def run_pass4(ctx: Ctx, mb: MB):
                 z = A.ape(None, P.SE3(torch.tensor(refp)), None, P.SE3(torch.tensor(estp)), etype="pose", align=True, scale=True)
                 z2 = A.ape(None, P.SE3(torch.tensor(refp)), None, P.SE3(torch.tensor(R.left_mul((S[2], S[1]), refp))), etype="translation", align=True)
             for zz, lab in ((z, "similarity"), (z2, "rigid")):
-                wv = max(abs(float(zz[k_])) for k_ in STAT_KEYS if k_ != "SSE")
+                wv = nmax(abs(float(zz[k_])) for k_ in STAT_KEYS if k_ != "SSE")
                 if not wv <= 1e4 * EPS64:
                     ctx.fail(c | {"transform": lab}, f"ties: ape(align) of a trajectory on the vertices of a {nm} (three equal singular values) against its {lab} image is {wv:.3e}, expected 0")
         except Exception as e:
@@ -2967,7 +3071,7 @@ def run_pass5(ctx: Ctx, mb: MB):
             return f()
     # ------------------------------------------------------------ class 35: ties at selection boundaries — every choice decided
     # (a) stamp association on half-integer lattices with duplicates: several candidates exactly equidistant
-    n_cases = ctx.pick(60, 400)
+    n_cases = ctx.pick(40, 400)
     for ci in range(n_cases):
         r_ = rnd if ci % 2 == 0 else rnd_s
         n1, n2 = r_.randint(2, 7), r_.randint(2, 9)
@@ -3029,7 +3133,7 @@ def run_pass5(ctx: Ctx, mb: MB):
             except Exception as e:
                 ctx.fail(c, f"ties35-raises: ape raised on tied stamps: {excs(e)}")
     # (b) distance pairing on integer lattices (zero steps, 3-4-5 steps): exact '>= delta', exact argmin ties, |d - delta| == tol
-    for ci in range(ctx.pick(40, 300)):
+    for ci in range(ctx.pick(30, 300)):
         r_ = rnd if ci % 2 == 0 else rnd_s
         L = r_.randint(3, 10)
         pos = [np.zeros(3)]
@@ -3248,6 +3352,86 @@ def run_pass5(ctx: Ctx, mb: MB):
                         ctx.fail(c | {"etype": et}, f"band36: the smallest {et} error (a 1e-13 motion) is reported as {v[1]!r}, documented {want_s[1]!r}")
         except Exception as e:
             ctx.fail(c, f"band36-raises: nearly equal rotations raised: {excs(e)}")
+    # ------------------------------------------------------------ lesson 38(c): EXACT ties of the four-way branch selection of mat2SO3
+    # (r22 vs atol, r00 vs r11, r00 vs -r11) reached through ape / rpe with exactly representable data: rotations from the 24 Hurwitz
+    # unit quaternions (components 0, +-1, +-1/2 — products are exact), i.e. E = est^-1 ref is EXACTLY a signed permutation matrix:
+    # identity, half turns about the axes (diag (1,-1,-1) …), 120-degree turns (all diagonal entries 0: r00 == r11 == r22 == -r11)
+    hur = [[sg if j == i else 0.0 for j in range(4)] for i in range(4) for sg in (1.0, -1.0)] + \
+          [[a_, b_, c_, d_] for a_ in (0.5, -0.5) for b_ in (0.5, -0.5) for c_ in (0.5, -0.5) for d_ in (0.5, -0.5)]
+    hur = np.array(hur)
+    for dtype in ("float64", "float32"):
+        for variant in ((0, 2) if quick else range(4)):
+            nH = len(hur)
+            refq = hur[[(7 * i + 3 * variant) % nH for i in range(nH)]] if variant else np.tile(np.array(ident), (nH, 1))
+            uq = hur[[(i + 5 * variant) % nH for i in range(nH)]]
+            estq = R.qmul(refq, uq)
+            posr = np.array([[float(i % 5), float((2 * i) % 7), float(-(i % 3))] for i in range(nH)])
+            pose_ = np.array([[float((3 * i) % 4), float(i % 6), float((i * i) % 5)] for i in range(nH)])
+            refp, estp = np.concatenate([posr, refq], -1), np.concatenate([pose_, estq], -1)
+            for et in ("radian", "degree", "rotation", "pose"):
+                for mode in ("none", "origin"):
+                    c = {"kind": "exact38", "dtype": dtype, "variant": variant, "etype": et, "mode": mode,
+                         "ref_quaternions": refq.tolist() if variant else "identity", "relative_quaternions": uq.tolist()}
+                    ctx.note_case(("pass7", "exact38", dtype, variant, et, mode), True)
+                    ctx.count("exact38")
+                    try:
+                        for fn_, kw, is_rpe in ((A.ape, {}, False), (A.rpe, {"all": True}, True)):
+                            res = quiet(lambda: fn_(None, se3t(refp, dtype), None, se3t(estp, dtype), etype=et, **MODES[mode], **kw))
+                            v = stat_vals(res)
+                            m_ = nH - 1 if is_rpe else nH
+                            if not stats_finite(ctx, c | {"fn": fn_.__name__}, f"{fn_.__name__}(etype={et}, mode={mode}) on rotations that are exact signed permutation matrices", v, m_):
+                                continue
+                            ea = estp if (mode == "none" or is_rpe) else R.left_mul(R.se3_mul((refp[0, :3], refp[0, 3:]), R.se3_inv((estp[0, :3], estp[0, 3:]))), estp)
+                            if is_rpe:
+                                rel_ = lambda A_: np.stack([R.se3_vec(R.se3_mul(R.se3_inv((a_[:3], a_[3:])), (b_[:3], b_[3:]))) for a_, b_ in zip(A_[:-1], A_[1:])])
+                                want = np_stats(np_rel_errors(et, rel_(refp), rel_(ea), True))
+                            else:
+                                want = np_stats(np_rel_errors(et, refp, ea, False))
+                            bad = stats_close(v, want, err_tol(et, 12.0) * 16, m_)
+                            if bad:
+                                ctx.fail(c | {"fn": fn_.__name__}, f"exact38: {fn_.__name__}(etype={et}, mode={mode}) on exact signed-permutation rotation errors: {bad} = "
+                                                                   f"{v[STAT_KEYS.index(bad)]!r}, documented {want[STAT_KEYS.index(bad)]!r}")
+                    except Exception as e:
+                        ctx.fail(c, f"exact38-raises: {excs(e)}")
+    # exactly EQUAL singular values / exactly symmetric point sets in the alignment: octahedron and cube vertices, estimate = exact signed
+    # permutation (Hurwitz rotation) of the reference plus an integer shift, so the cross-covariance is an exact multiple of a permutation matrix
+    cube_ = np.array([[x, y, z] for x in (-1.0, 1.0) for y in (-1.0, 1.0) for z in (-1.0, 1.0)])
+    octa_ = np.array([[1.0, 0, 0], [-1.0, 0, 0], [0, 1.0, 0], [0, -1.0, 0], [0, 0, 1.0], [0, 0, -1.0]])
+    for nm, V in (("cube", cube_), ("octahedron", octa_)):
+        for gi_, G_ in enumerate((np.array(ident), hur[8], hur[2], hur[13])):
+            refp = np.concatenate([V, hur[[(5 * i + gi_) % len(hur) for i in range(len(V))]]], -1)
+            estp = R.left_mul((np.array([2.0, -3.0, 1.0]) * (gi_ > 0), G_), refp)
+            for mode in ("align", "align+scale"):
+                for et in ETYPES:
+                    c = {"kind": "exact38", "what": f"alignment of the {nm} with its exact image", "G": G_.tolist(), "mode": mode, "etype": et}
+                    ctx.note_case(("pass7", "exact38", "svd", nm, gi_, mode, et), True)
+                    ctx.count("exact38.svd")
+                    try:
+                        v = stat_vals(quiet(lambda: A.ape(None, se3t(refp), None, se3t(estp), etype=et, **MODES[mode])))
+                        if stats_finite(ctx, c, f"ape(etype={et}, mode={mode}) on the vertices of a {nm} (equal singular values)", v, len(V)):
+                            wv = nmax(abs(x) for k_, x in zip(STAT_KEYS, v) if k_ != "SSE")
+                            if not wv <= 1e4 * EPS64 * (180 / math.pi if et == "degree" else 1):
+                                ctx.fail(c, f"exact38: ape(etype={et}, mode={mode}) of a trajectory on the vertices of a {nm} against its exact rotated / shifted image is {wv:.3e}, expected 0")
+                    except Exception as e:
+                        ctx.fail(c, f"exact38-raises: ape raised on the {nm}: {excs(e)}")
+    # the same exact turns through geodesic_loss (its Log has its own branch selection): every pair of Hurwitz rotations
+    try:
+        ia, ib = np.meshgrid(np.arange(len(hur)), np.arange(len(hur)), indexing="ij")
+        qa_h, qb_h = hur[ia.reshape(-1)], hur[ib.reshape(-1)]
+        for dtype in ("float64", "float32"):
+            got = P.geodesic_loss(P.SO3(torch.tensor(qa_h).to(DT[dtype])), P.SO3(torch.tensor(qb_h).to(DT[dtype])), reduction="none").double().numpy()
+            want = R.qangle(R.qmul(qa_h, R.qconj(qb_h)))
+            ctx.count("exact38.geo")
+            if not np.isfinite(got).all():
+                j = int((~np.isfinite(got)).nonzero()[0][0])
+                ctx.fail({"kind": "exact38", "fn": "geodesic_loss", "dtype": dtype, "x": qa_h[j].tolist(), "y": qb_h[j].tolist()},
+                         f"non-finite result: geodesic_loss of the exact rotations {qa_h[j].tolist()} and {qb_h[j].tolist()} is {got[j]!r}")
+            elif not np.abs(got - want).max() <= 24 * EPS[dtype]:
+                j = int(np.abs(got - want).argmax())
+                ctx.fail({"kind": "exact38", "fn": "geodesic_loss", "dtype": dtype, "x": qa_h[j].tolist(), "y": qb_h[j].tolist()},
+                         f"exact38: geodesic_loss of the exact rotations {qa_h[j].tolist()} and {qb_h[j].tolist()} is {got[j]!r}, the angle is {want[j]!r}")
+    except Exception as e:
+        ctx.fail({"kind": "exact38", "fn": "geodesic_loss"}, f"exact38-raises: {excs(e)}")
     lap("band36")
     # ------------------------------------------------------------ class 32: every other public operation between two identical calls
     Xi = rand_poses_t(g, (9,))
@@ -3274,6 +3458,9 @@ def run_pass5(ctx: Ctx, mb: MB):
         return out
     try:
         first = quiet(subjects)
+        for nm, v_ in first.items():
+            if not all_finite(v_):
+                ctx.fail({"kind": "interleave", "fn": nm}, f"non-finite result: {nm} returns non-finite values for finite valid input")
         # the first results against the documented values (the battery below must not be what makes them right or wrong)
         w0 = np_stats(np_rel_errors("pose", Xi.numpy(), Yi.numpy(), False))
         if stats_close(stat_vals(first["ape(none,pose)/float64"]), w0, err_tol("pose", 3.0) * 8, 9):
@@ -3442,8 +3629,8 @@ def run_pass5(ctx: Ctx, mb: MB):
         except Exception as e:
             ctx.fail(c, f"dtypes30-raises: {dn} operands raised {excs(e)}")
     Xs_, Ys_ = rand_poses_t(g, (6,)), rand_poses_t(g, (6,))
-    for sdt in (torch.int64, torch.int32, torch.int16, torch.int8, torch.uint8, torch.float32, torch.float16):
-        for base_, step_ in ((0, 1), (3, 7), (100, 3)):
+    for sdt in ((torch.int64, torch.int16, torch.uint8, torch.float16) if quick else (torch.int64, torch.int32, torch.int16, torch.int8, torch.uint8, torch.float32, torch.float16)):
+        for base_, step_ in (((0, 1), (100, 3)) if quick else ((0, 1), (3, 7), (100, 3))):
             st_i = (torch.arange(6) * step_ + base_).to(sdt)
             c = {"kind": "dtypes30", "what": "stamps", "dtype": str(sdt), "first": base_, "step": step_}
             ctx.note_case(("pass5", "dtypes30", "stamps", str(sdt), base_), True)
@@ -3457,7 +3644,7 @@ def run_pass5(ctx: Ctx, mb: MB):
                         ctx.fail(c | {"fn": fn_.__name__}, f"dtypes30: {fn_.__name__} with {sdt} stamps {st_i.tolist()} differs from the call with the same stamps in float64 / with index stamps")
                     # estimate stamps one unit LATER / EARLIER than the reference stamps (differences of either sign inside the stamp dtype), diff = 1.5 / 2.5
                     st_r, st_e = (st_i * 2 + 4).to(sdt), (st_i * 2 + 5).to(sdt)
-                    for a_, b_, df_ in ((st_r, st_e, 1.5), (st_e, st_r, 1.5), (st_r, (st_i * 2 + 2).to(sdt), 2.5)):
+                    for a_, b_, df_ in (((st_r, st_e, 1.5), (st_e, st_r, 1.5), (st_r, (st_i * 2 + 2).to(sdt), 2.5)) if (base_ == 0 or not quick) else ()):
                         kw2 = {**kw, "diff": df_}
                         r_i = quiet(lambda: fn_(a_, P.SE3(Xs_), b_, P.SE3(Ys_), **kw2))
                         r_f = quiet(lambda: fn_(a_.double(), P.SE3(Xs_), b_.double(), P.SE3(Ys_), **kw2))
@@ -3579,8 +3766,16 @@ def run_pass5(ctx: Ctx, mb: MB):
 # ============================================================================= entry points
 
 def run(ctx: Ctx):
-    torch.set_num_threads(2)
+    import os, time
+    torch.set_num_threads(int(os.environ.get("C19_THREADS", "2")))
     mb = MB()
+    _t0 = [time.time()]
+
+    def guard(ctx_, case, what, fn):       # local wrapper: optional per-stage timing (C19_PROF=1)
+        globals()["guard"](ctx_, case, what, fn)
+        if os.environ.get("C19_PROF"):
+            print(f"  [prof] run {what}: {time.time() - _t0[0]:.2f}s", flush=True)
+        _t0[0] = time.time()
     guard(ctx, {"kind": "corpus"}, "corpus", lambda: run_corpus(ctx, mb))       # deterministic, first
     guard(ctx, {"kind": "history"}, "history", lambda: run_history(ctx, mb))
     guard(ctx, {"kind": "stale"}, "stale", lambda: run_stale(ctx))
@@ -3588,11 +3783,11 @@ def run(ctx: Ctx):
     guard(ctx, {"kind": "pass2"}, "pass2", lambda: run_pass2(ctx))
     guard(ctx, {"kind": "pass4"}, "pass4", lambda: run_pass4(ctx, mb))
     guard(ctx, {"kind": "pass5"}, "pass5", lambda: run_pass5(ctx, mb))
-    run_chs(ctx, mb, ctx.pick(60, 1000))
-    run_bs(ctx, mb, ctx.pick(40, 750))
-    run_geo(ctx, mb, ctx.pick(60, 1200))
-    run_traj(ctx, mb, ctx.pick(50, 1000))
-    mb.flush(ctx)
+    guard(ctx, {"kind": "chs"}, "random-chs", lambda: run_chs(ctx, mb, ctx.pick(40, 1000)))
+    guard(ctx, {"kind": "bs"}, "random-bs", lambda: run_bs(ctx, mb, ctx.pick(20, 750)))
+    guard(ctx, {"kind": "geo"}, "random-geo", lambda: run_geo(ctx, mb, ctx.pick(40, 1200)))
+    guard(ctx, {"kind": "traj"}, "random-traj", lambda: run_traj(ctx, mb, ctx.pick(30, 1000)))
+    guard(ctx, {"kind": "model"}, "model-flush", lambda: mb.flush(ctx))
 
 
 def search(ctx: Ctx):
@@ -3625,7 +3820,7 @@ def replay(ctx: Ctx, case) -> bool:
         run_pass2(ctx)
     elif kind in ("large", "ties", "subclass", "clock", "modecache", "defaultdtype", "signs", "pass4"):
         run_pass4(ctx, mb)
-    elif kind in ("ties35", "band36", "interleave", "defaults29", "dtypes30", "huge34", "pass5"):
+    elif kind in ("exact38", "ties35", "band36", "interleave", "defaults29", "dtypes30", "huge34", "pass5"):
         run_pass5(ctx, mb)
     elif kind in ("stale", "views", "history", "corpus"):
         {"stale": lambda: run_stale(ctx), "views": lambda: run_views(ctx), "history": lambda: run_history(ctx, mb),
